@@ -865,28 +865,11 @@ class AbstractCircuit(abc.ABC):
             given predicate are terminal. Also checks within any CircuitGates
             the circuit may contain.
         """
-        from cirq.circuits import CircuitOperation
-
-        if not all(
-            self.next_moment_operating_on(op.qubits, i + 1) is None
-            for (i, op) in self.findall_operations(predicate)
-            if not isinstance(op.untagged, CircuitOperation)
-        ):
-            return False
-
-        for i, moment in enumerate(self.moments):
-            for op in moment.operations:
-                circuit = getattr(op.untagged, 'circuit', None)
-                if circuit is None:
-                    continue
-                if not circuit.are_all_matches_terminal(predicate):
-                    return False
-                if i < len(self.moments) - 1 and not all(
-                    self.next_moment_operating_on(op.qubits, i + 1) is None
-                    for _, op in circuit.findall_operations(predicate)
-                ):
-                    return False
-        return True
+        flat = _flattened_for_terminal_check(self)
+        return all(
+            flat.next_moment_operating_on(op.qubits, i + 1) is None
+            for (i, op) in flat.findall_operations(predicate)
+        )
 
     def are_any_measurements_terminal(self) -> bool:
         """Whether any measurement gates are at the end of the circuit.
@@ -910,28 +893,11 @@ class AbstractCircuit(abc.ABC):
             given predicate are terminal. Also checks within any CircuitGates
             the circuit may contain.
         """
-        from cirq.circuits import CircuitOperation
-
-        if any(
-            self.next_moment_operating_on(op.qubits, i + 1) is None
-            for (i, op) in self.findall_operations(predicate)
-            if not isinstance(op.untagged, CircuitOperation)
-        ):
-            return True
-
-        for i, moment in reversed(list(enumerate(self.moments))):
-            for op in moment.operations:
-                circuit = getattr(op.untagged, 'circuit', None)
-                if circuit is None:
-                    continue
-                if not circuit.are_any_matches_terminal(predicate):
-                    continue
-                if i == len(self.moments) - 1 or any(
-                    self.next_moment_operating_on(op.qubits, i + 1) is None
-                    for _, op in circuit.findall_operations(predicate)
-                ):
-                    return True
-        return False
+        flat = _flattened_for_terminal_check(self)
+        return any(
+            flat.next_moment_operating_on(op.qubits, i + 1) is None
+            for (i, op) in flat.findall_operations(predicate)
+        )
 
     def _has_op_at(self, moment_index: int, qubits: Iterable[cirq.Qid]) -> bool:
         return 0 <= moment_index < len(self.moments) and self.moments[moment_index].operates_on(
@@ -3229,3 +3195,40 @@ class _PlacementCache:
         )
         self._length = max(self._length, index + 1)
         return index
+
+
+def _flattened_for_terminal_check(circuit: cirq.AbstractCircuit) -> cirq.Circuit:
+    """The operations a circuit runs, with every sub-circuit operation replaced by what it runs.
+
+    A `cirq.CircuitOperation` (classically controlled or not) stands for its body on the qubits it
+    is mapped to, once per repetition: none for zero repetitions; two repetitions show everything
+    about what follows what that more of them would.
+    """
+    from cirq.circuits import CircuitOperation
+
+    def expand(op: cirq.Operation) -> Iterator[cirq.Operation]:
+        sub = op.untagged
+        while isinstance(sub, ops.ClassicallyControlledOperation):
+            sub = sub.without_classical_controls().untagged
+        if isinstance(sub, CircuitOperation):
+            if protocols.is_parameterized(sub.repetitions):
+                body, repetitions = sub.circuit, 1
+            else:
+                body = sub.replace(repetitions=1, repetition_ids=None).mapped_circuit()
+                repetitions = min(abs(int(sub.repetitions)), 2)
+            for _ in range(repetitions):
+                for inner in body.all_operations():
+                    yield from expand(inner)
+        elif getattr(sub, 'circuit', None) is not None:
+            for inner in sub.circuit.all_operations():
+                yield from expand(inner)
+        else:
+            yield op
+
+    if not any(
+        getattr(op.untagged, 'circuit', None) is not None
+        or isinstance(op.untagged, ops.ClassicallyControlledOperation)
+        for op in circuit.all_operations()
+    ):
+        return circuit  # type: ignore[return-value]
+    return Circuit(expand(op) for op in circuit.all_operations())
